@@ -659,7 +659,10 @@ class Runtime:
                     raise e
                 t = self.disk.mtime(name)
                 how = self.cfg.get("renders", {}).get(name, self.world["stores"][name].get("render"))
-                if t is None:
+                if how is None and name in getattr(self.disk, "file_names", ()):
+                    # a file-backed store: the bundled store class answers itself
+                    out = self.disk._store(name).get_modified_time()
+                elif t is None:
                     out = None
                 elif how == "file" or (isinstance(how, str) and how.startswith("file:")):
                     out = self._file_mtime(name, t, how)
